@@ -359,6 +359,16 @@ func selftest(verbose bool) error {
 	for _, tc := range []struct {
 		fn  string
 		bad bool
+	}{{"DeferCloseOk", false}, {"DeferCloseErrOk", false}, {"DeferCloseBad", true}} {
+		f := u.Func(fx, tc.fn)
+		if f == nil {
+			return fmt.Errorf("fixture %s missing", tc.fn)
+		}
+		expect("deferred-close-of-returned/"+tc.fn, len(deferredCloseOfReturned(f)) > 0, tc.bad)
+	}
+	for _, tc := range []struct {
+		fn  string
+		bad bool
 	}{{"GoLoopOk", false}, {"GoLoopBad", true}} {
 		f := u.Func(fx, tc.fn)
 		if f == nil {
